@@ -346,4 +346,13 @@ theorem foldDigitAll_ascii : FoldDigitAll asciiCC := by
   obtain ⟨h1, h2⟩ := ascii_letters_small n hn
   simp [h1, h2, this]
 
+/-- every character that is not an ASCII letter is caseless in the ASCII tables -/
+theorem caseless_ascii (c : Char) (h1 : ¬ (65 ≤ c.toNat ∧ c.toNat ≤ 90)) (h2 : ¬ (97 ≤ c.toNat ∧ c.toNat ≤ 122)) :
+    Caseless asciiCC c := by
+  intro d hd
+  rcases asciiCC_fold_eq hd with h | ⟨_, _, h | h⟩
+  · exact h
+  · omega
+  · omega
+
 end Re
